@@ -6,6 +6,7 @@ import (
 	"bytes"
 	"crypto/cipher"
 	"fmt"
+	"strings"
 	"testing"
 	"unsafe"
 
@@ -219,7 +220,7 @@ func TestVerifC11(t *testing.T) {
 				}
 				nonceV, aadV, ptV := rng.Bytes(c.nl), rng.Bytes(c.al), rng.Bytes(c.pl)
 				sealed := g.Seal(nonceV, ptV, aadV, c.tag)
-				for _, op := range []string{"Seal", "Open", "Open-forged", "Open-short", "Seal-inplace", "Open-inplace", "Seal-after-prefix", "Open-after-prefix"} {
+				for _, op := range []string{"Seal", "Open", "Open-forged", "Open-short", "Seal-inplace", "Open-inplace", "Seal-after-prefix", "Open-after-prefix", "Seal-short-room", "Open-short-room", "Seal-after-long-prefix"} {
 					nonce := gs.get("nonce", nonceV, c.place)
 					aad := gs.get("aad", aadV, c.place)
 					var in []byte
@@ -228,11 +229,12 @@ func TestVerifC11(t *testing.T) {
 					case "Seal":
 						in = gs.get("plaintext", ptV, c.place)
 						need = c.pl + c.tag
-					case "Open", "Open-after-prefix":
+					case "Open", "Open-after-prefix", "Open-short-room":
 						in = gs.get("ciphertext", sealed, c.place)
 						need = c.pl
-					case "Seal-after-prefix":
+					case "Seal-after-prefix", "Seal-short-room", "Seal-after-long-prefix":
 						in = gs.get("plaintext", ptV, c.place)
+						need = c.pl + c.tag
 					case "Open-forged":
 						in = gs.get("ciphertext", flipBit(sealed, rng.Intn(len(sealed)*8)), c.place)
 						need = c.pl
@@ -254,6 +256,21 @@ func TestVerifC11(t *testing.T) {
 						// inaccessible page): the result needs a new array, and exactly the prefix is copied over
 						prefix = rng.Bytes([]int{1, 5, 16, 33, 100}[si%5])
 						dst = gs.get("dst-prefix", prefix, c.place)
+					} else if op == "Seal-short-room" || op == "Open-short-room" {
+						// dst has a prefix and spare capacity that is SHORT of the result by 1 .. tag bytes (it may hold the whole
+						// message but not the tag), and ends at an inaccessible page: the result must move, nothing is written there
+						prefix = rng.Bytes([]int{0, 3, 16, 40}[si%4])
+						shortBy := 1 + (si/4)%c.tag
+						if shortBy > need {
+							shortBy = need
+						}
+						full := gs.get("dst-short-room", append(append([]byte{}, prefix...), make([]byte, need-shortBy)...), hk.PlaceEnd)
+						dst = full[:len(prefix)]
+					} else if op == "Seal-after-long-prefix" {
+						// a few hundred bytes already in dst, and exactly enough room behind them
+						prefix = rng.Bytes([]int{255, 256, 300, 1024}[si%4])
+						full := gs.get("dst-long-prefix", append(append([]byte{}, prefix...), make([]byte, need)...), c.place)
+						dst = full[:len(prefix)]
 					} else if op == "Seal-inplace" || op == "Open-inplace" {
 						dst = in[:0]
 					} else if c.exactDst {
@@ -264,7 +281,7 @@ func TestVerifC11(t *testing.T) {
 					var out []byte
 					var oerr error
 					p, msg, isFault, addr := hk.Try(func() {
-						if op == "Seal" || op == "Seal-inplace" || op == "Seal-after-prefix" {
+						if strings.HasPrefix(op, "Seal") {
 							out = a.Seal(dst, nonce, in, aad)
 						} else {
 							out, oerr = a.Open(dst, nonce, in, aad)
@@ -279,9 +296,9 @@ func TestVerifC11(t *testing.T) {
 						r.Violation(fmt.Sprintf("gcm-out-of-range-access:%s:%s:%s", pn, op, gs.where(addr)), d)
 					case p:
 						r.Violation(fmt.Sprintf("gcm-panics:%s:%s", pn, op), d)
-					case op == "Seal-after-prefix" && !bytes.Equal(out, append(append([]byte{}, prefix...), sealed...)):
+					case (op == "Seal-after-prefix" || op == "Seal-short-room" || op == "Seal-after-long-prefix") && !bytes.Equal(out, append(append([]byte{}, prefix...), sealed...)):
 						r.Violation(fmt.Sprintf("gcm-wrong-result:%s:%s", pn, op), d)
-					case op == "Open-after-prefix" && (oerr != nil || !bytes.Equal(out, append(append([]byte{}, prefix...), ptV...))):
+					case (op == "Open-after-prefix" || op == "Open-short-room") && (oerr != nil || !bytes.Equal(out, append(append([]byte{}, prefix...), ptV...))):
 						d["err"] = fmt.Sprint(oerr)
 						r.Violation(fmt.Sprintf("gcm-wrong-result:%s:%s", pn, op), d)
 					case (op == "Seal" || op == "Seal-inplace") && !bytes.Equal(out, sealed):
